@@ -1211,6 +1211,10 @@ func (c *Context) quantize(d, v *Decimal, exp int32) Condition {
 			}
 		} else {
 			nc := c.WithPrecision(uint32(p))
+			// The rounding below works on a temporary exponent; the context's
+			// MinExponent does not apply to it (with MinExponent 0 and p == 0
+			// it would be taken for a subnormal and rounded at the wrong digit).
+			nc.MinExponent = MinExponent
 
 			// The idea here is that the resulting d.Exponent after rounding will be 0. We
 			// have a number of, say, 5 digits, but p (our precision) above is set at, say,
